@@ -22,6 +22,9 @@ UNIT['call_patterns'] = [
     (r'c:(basic_string<char>|string|std::string)\(\)', 'vstr_new'), (r'c:(basic_string<char>|string|std::string)/0', 'vstr_new'),
     (r'o:=:unique_ptr<.*>', '(*$o = $0)'), (r'm:unique_ptr<.*>::reset', ('verif_queue_reset', '')),
 ]
+UNIT['type_patterns'] = list(_b.get('type_patterns', [])) + [(r'(llvm::)?DenseSet<(core::)?CancellationDelegate \*.*>', 'vec_cdel')]
+UNIT['vec_types'] = dict(_b['vec_types'], vec_cdel='struct CancellationDelegate *')
+UNIT['calls'].update({'range:@vec_cdel': ('vec_cdel_size', 'vec_cdel_at'), 'm:CancellationDelegate::buildCancelled': 'verif_cd_notify', 'm:ExecutionQueue::cancelAllJobs': 'verif_cancel_all'})
 UNIT['after_structs'] = '#include "models/engine_after.h"\n#include "models/engine_build.h"\n'
 DB = 'self->db != 0'
 UNIT['stubs'] = {
@@ -53,6 +56,17 @@ UNIT['stubs'] = {
         'assigns': ['g_exec_calls'], 'ensures': ['g_exec_calls == 1 && (RESULT != 0) == (g_exec_success != 0)']},
 }
 UNIT['functions'] = {
+    # cancelBuild (any thread): the cancellation delegates hear of it once, the flag is set, and the execution queue is told to cancel its jobs WHILE the
+    # queue mutex is held -- build() releases the queue under the same mutex, so the queue cannot be torn down under a running cancelAllJobs
+    'BuildEngineImpl::cancelBuild': {
+        'requires': ['__CPROVER_is_fresh(self, sizeof(*self))', 'g_engine == self', '!self->executionQueueMutex.held', 'self->executionQueue == 0 || __CPROVER_is_fresh(self->executionQueue, sizeof(struct ExecutionQueue))',
+                     'VEC_OKN(self->cancellationDelegates, struct CancellationDelegate *, 2)', 'g_cd_notified == 0 && g_cancel_all == 0'],
+        'assigns': ['self->executionQueueMutex.held', 'self->buildCancelled', 'g_cd_notified', 'g_cancel_all'],
+        'ensures': [('P:C05', 'self->buildCancelled'), ('P:C05', 'g_cancel_all == (self->executionQueue != 0 ? 1u : 0u)'),
+                    ('P:C05', 'g_cd_notified == (OLD(self->buildCancelled) ? 0u : (unsigned)self->cancellationDelegates.len)'),
+                    ('P:C05,P:C06', '!self->executionQueueMutex.held')],
+        'loops': {0: {'assigns': ['$i', 'g_cd_notified'], 'invariant': ['$i <= $range->len && g_cd_notified == $i'], 'decreases': '$range->len - $i'}},
+    },
     'BuildEngineImpl::build': {
         'requires': ['__CPROVER_is_fresh(self, sizeof(*self))', '__CPROVER_is_fresh(self->delegate, sizeof(*self->delegate))', 'g_engine == self',
                      'self->db == 0 || __CPROVER_is_fresh(self->db, sizeof(*self->db))',
